@@ -420,6 +420,11 @@ func c04(c *core.Ctx, r *core.Report) {
 	}
 	for _, T := range impls {
 		c04Explore(c, r, T)
+		for _, m := range []string{"AddSingletonFactory", "AddSingleton", "GetSingleton", "GetSingletonOrCreateByFactory", "IsSingletonCurrentlyInCreation"} {
+			if fn := c.DeclaredMethod(T, m); fn != nil {
+				smallModelCheck(c, r, "C04.R0", "registry:"+T.Obj().Name()+"."+m, fn, 1)
+			}
+		}
 	}
 }
 
